@@ -65,7 +65,9 @@ def check_config(ctx, F, tag, cfg):
     ctx.ob("C17.R2.geometry", "bits" + tag, where, ok, "constant-relations", "WORD_BITS=%d WORD_BYTES=%d INDEX_SHIFT=%d OFFSET_MASK=%d: 2^INDEX_SHIFT = WORD_BITS, OFFSET_MASK = WORD_BITS-1, WORD_BYTES*8 = WORD_BITS" % (wb, wby, ish, om))
     so = F.body("bits::split_offset")
     t = so.term_of_local(0)
-    ok = m(("tuple", (Bin("Shr", Param(0), Const(None, "bits::INDEX_SHIFT")), Bin("BitAnd", Param(0), Const(None, "bits::OFFSET_MASK")))), t)
+    hi = [Bin("Shr", Param(0), Const(6)), Bin("Div", Param(0), Const(64))]
+    lo = [Bin("BitAnd", Param(0), Const(63)), Bin("Rem", Param(0), Const(64))]
+    ok = t[0] == "tuple" and len(t[1]) == 2 and any(m(h, t[1][0]) for h in hi) and any(m(l_, t[1][1]) for l_ in lo)
     ctx.ob("C17.R2.split-offset", "bits::split_offset" + tag, loc(so.raw["span"]), ok, "term-shape", "split_offset(o) = %s" % tstr(t))
     for fn, table in (("bits::low_set", "bits::LOW_SET"), ("bits::high_set", "bits::HIGH_SET")):
         b = F.body(fn)
